@@ -59,10 +59,12 @@ func gen(g *common.Gen) {
 			}
 			g.Stat("flip-sampled")
 		}
+		g.Op("cmp")
 	}
 }
 
 var last *c03.Built
+var lastMkOut string
 
 func sigOf(p any) ndn.Signature {
 	switch x := p.(type) {
@@ -112,16 +114,21 @@ func exec(op string) string {
 	f := common.Fields(op)
 	switch f[0] {
 	case "new":
-		last = nil
+		last, lastMkOut = nil, ""
 		return "ok"
 	case "mkd":
 		out, b := c03.MakeData(f)
-		last = b
+		last, lastMkOut = b, out
 		return out
 	case "mki":
 		out, b := c03.MakeInterest(f)
-		last = b
+		last, lastMkOut = b, out
 		return out
+	case "cmp":
+		if lastMkOut == "" {
+			return "skip"
+		}
+		return lastMkOut
 	case "val":
 		if last == nil {
 			return "skip"
